@@ -542,7 +542,7 @@ class KconfigOptionBlock(KconfigBlock):
 
             elif tokens[0] == "help":
                 new_loc, parsed_help = self.help_block.parseImpl(instring, current_loc)
-                option_dict["help"] = "\n".join(parsed_help)
+                option_dict["help"] = "\n".join(parsed_help).rstrip()
                 current_loc = new_loc
                 help_text_indices = [i for i in range(idx + 1, idx + 1 + len(parsed_help))]
 
@@ -1022,6 +1022,9 @@ class KconfigGrammar:
             lines = f.readlines()
             return_file = ""
             split_lines_idxs: List[int] = []
+            # Help texts are free-form: '#' does not start a comment and a trailing '\' does not join lines there.
+            help_keyword_indent: Optional[int] = None  # set between the "help" line and the first line of its text
+            help_text_indent: Optional[int] = None  # set while inside a help text
 
             for line_idx, line in enumerate(lines):
                 line = line.expandtabs()
@@ -1030,8 +1033,21 @@ class KconfigGrammar:
                     return_file += "\n"
                     continue
 
+                # Lines of a help text (indented at least as much as its first line) are kept as they are
+                indent = len(line) - len(line.lstrip())
+                if help_keyword_indent is not None:
+                    help_text_indent = indent if indent > help_keyword_indent else None
+                    help_keyword_indent = None
+                if help_text_indent is not None:
+                    if indent >= help_text_indent:
+                        return_file += line if line.endswith("\n") else line + "\n"
+                        continue
+                    help_text_indent = None
+
                 # Remove inline comments
                 line = remove_inline_comments(line)
+                if line.strip() == "help" and line_idx not in split_lines_idxs:
+                    help_keyword_indent = indent
 
                 # Merge lines split with '\' and place blank lines to preserve line numbering.
                 if line_idx in split_lines_idxs:
